@@ -1,6 +1,7 @@
 import CE.Rules.Machine
 import CE.Rules.Table
 import CE.Rules.Measure
+import CE.Rules.Counters
 /-
   C14 — configured resource limits are enforced exactly (validator part).
 
@@ -10,9 +11,14 @@ import CE.Rules.Measure
   Proved here: exactness of every single limit check — each Context function that tests a
   limit succeeds *iff* the counter it is about to reach is within the configured maximum
   (so: rejected when exceeded, never rejected because of the limit when within it) — and which
-  rule-table entries reach those functions.  The lift to whole documents (the counters equal
-  the structural measures) is `…_partial`: it is exercised on every run at usage−1, usage and
-  usage+1 of every limit of every generated document (bin/check C14).
+  rule-table entries reach those functions.  Lifted to whole documents for the object count:
+  `object_counter_is_the_structural_measure` - after EVERY accepted stream the validator's counter
+  equals `Spec.measure evs`.objects (the independent structural measure the harness compares
+  with) and is within the configured maximum (CE/Rules/Counters.lean: no statement of any rule
+  method touches the counter, NotifyNewObject adds one per object event).  For depth, array size,
+  identifier length and marker count the lift (the counters equal the structural measures) is
+  `…_partial`: exercised on every run at usage−1, usage and usage+1 of every limit of every
+  generated document (bin/check C14).
   Document size (`MaxDocumentSizeBytes`) belongs to the decoders, see CE/Props/C14 notes in
   DESIGN.md; it is checked through the CBE/CTE decoder runs.
 -/
@@ -103,5 +109,18 @@ theorem chunk_limit_not_spurious (cfg : Cfg) (k : ChunkKind) (s : RState) (args 
 /-- non-vacuity -/
 example : (∃ s', beginContainer { maxContainerDepth := 3 } { depth := 2 } .list DT.list none = .ok s') := by
   rw [depth_limit_exact]; decide
+
+/-- an accepted stream: the object counter is the structural object count, and within the limit -/
+theorem object_counter_is_the_structural_measure (env : Env) (evs : List Ev)
+    (h : (run env RState.init evs 0).2.1 = none) :
+    (run env RState.init evs 0).2.2.objectCount = (Spec.measure evs).objects ∧
+    (Spec.measure evs).objects ≤ env.cfg.maxObjectCount := by
+  obtain ⟨h1, h2⟩ := run_count env evs RState.init 0 h (by simp [RState.init])
+  have hm : (Spec.measure evs).objects = objectsIn evs := by
+    have := measure_objects evs 0 0 8 {}
+    simpa [Spec.measure] using this
+  rw [hm]
+  simp only [RState.init, Nat.zero_add] at h1
+  exact ⟨h1, by rw [← h1]; exact h2⟩
 
 end CE.Props.C14
